@@ -403,7 +403,7 @@ func (g *Graph) EdgeForm(e Edge) *Form {
 	switch succ.Kind {
 	case cfg.KindSwitchCaseBody:
 		if cc, ok := succ.Stmt.(*ast.CaseClause); ok {
-			if ts, ok := g.parent[g.parent[cc]].(*ast.TypeSwitchStmt); ok && pol {
+			if ts, ok := g.parent[g.parent[cc]].(*ast.TypeSwitchStmt); ok {
 				x := typeSwitchSubject(ts)
 				if x != nil {
 					var ts2 []string
@@ -413,7 +413,7 @@ func (g *Graph) EdgeForm(e Edge) *Form {
 					fr := former{g: g}
 					var vars []*types.Var
 					xAt, _ := g.Where(ts.Assign)
-					return fr.atom("istype("+fr.norm(x, xAt, &vars)+";"+strings.Join(ts2, "|")+")", true, vars)
+					return fr.atom("istype("+fr.norm(x, xAt, &vars)+";"+strings.Join(ts2, "|")+")", pol, vars)
 				}
 			}
 		}
